@@ -1,0 +1,41 @@
+// Copyright (c) 2026, the mvdan/sh verification harness
+// See LICENSE for licensing information
+
+//go:build verif
+
+package interp
+
+// Verification hook H12, compiled only with the build tag "verif".
+//
+// verifYield is called at the places where the interpreter starts or ends a
+// goroutine, may block, or hands work to a handler:
+//
+//	stmt                              entry of Runner.stmt
+//	bg.start, bg.end                  goroutine of a background statement ("&")
+//	pipe.start, pipe.end, pipe.wait   goroutine of the left side of a pipeline; parent before wg.Wait
+//	procsubst.start, procsubst.end    goroutine of <( ) and >( )
+//	fifo.open, fifo.opened            before and after opening a process substitution's FIFO
+//	hdoc.start, hdoc.end              goroutine writing a here-document into its pipe
+//	wait.before, wait.after           around each "<-bg.done" of the wait builtin
+//	read.before, read.after           Runner.readLine (the read builtin, mapfile)
+//	exec.before, exec.after           around the call of the exec handler
+//
+// A harness sets VerifYieldHook before calling Run and leaves it alone while any
+// Runner is running; the hook may sleep (to impose a schedule), record an event,
+// or cancel the context at an exact step. For the hdoc points the Runner is the
+// one that owns the redirection and is running concurrently, so the hook must
+// not inspect it there.
+var VerifYieldHook func(point string, r *Runner)
+
+func verifYield(point string, r *Runner) {
+	if h := VerifYieldHook; h != nil {
+		h(point, r)
+	}
+}
+
+// VerifVar returns the value of a shell variable as seen by r. It is meant to be
+// called from VerifYieldHook, on the goroutine that is running r, so that a
+// program can label its jobs and phases with ordinary variables.
+func VerifVar(r *Runner, name string) string {
+	return r.lookupVar(name).String()
+}
